@@ -49,6 +49,10 @@ def twin(rng, s):
     return out
 
 
+def _perturb(s, k, inside=False):
+    return [((c * k if inside else c), (f if pyside.is_key(f) else _perturb(f, k, True))) for c, f in s]
+
+
 def ion_rich(rng):
     """several charges / isotopes of one element – where a weak key would not be canonical"""
     z = rng.choice([26, 25, 24, 29, 7, 17, 1])
@@ -75,6 +79,9 @@ def run(run: Run) -> int:
         else:
             s = gens.gen_struct(run.rng, maxdepth=3)
         cases.append(s)
+        if any(not pyside.is_key(fr) for _, fr in s) and run.rng.random() < 0.3:
+            # a near twin right after it: the counts inside the groups differ in the seventh digit only
+            cases.append(_perturb(s, 1.0000003))
     lines = pyside.mass_table_lines(tbl)   # no `sym` lines: the model uses the generated symbol table
     for s in cases:
         lines += ["reset", "new 0 " + pyside.struct_tokens(s), "hill 1 0", "struct 1", "hill 2 1", "struct 2"]
